@@ -22,6 +22,7 @@ from pathlib import Path
 
 from ...Progress import Progress
 from ...Surface.ConstructSurfaceT4 import construct_surface_t4
+from ..Parser.ParseMCNPCell import check_unsupported_data_cards
 from ...Surface.Duplicates import remove_duplicate_surfaces, renumber_surfaces
 from ...Volume.ConstructVolumeT4 import (construct_volume_t4,
                                          remove_empty_volumes,
@@ -38,6 +39,9 @@ def convertMCNPGeometry(mcnp_parser, lattice_params, args):
         mcnp_cell_cache_path = input_file.with_suffix('.mcnp.cache')
     else:
         mcnp_cell_cache_path = None
+
+    # unsupported data cards are refused before anything depends on them
+    check_unsupported_data_cards(mcnp_parser)
 
     if not args.cache:
         surf_conv = construct_surface_t4(mcnp_parser)
